@@ -27,7 +27,7 @@ theorem ext_request (n : Node) (c hid : Nat) (v1 : Bool) (frm target : Addr) (in
       · -- target is me
         split
         · split
-          · rw [respondTerminal_fst]; exact ext_modHost_map _ _ (keyPres_completeIp _ _) (Ext.refl _ _)
+          · rw [respondTerminal_fst]; exact ext_modHost_map _ _ (keyPres_completeIp _ _) (stOK_completeIp _ _) (Ext.refl _ _)
           · split
             · split
               · exact Ext.refl _ _
@@ -35,13 +35,13 @@ theorem ext_request (n : Node) (c hid : Nat) (v1 : Bool) (frm target : Addr) (in
             · split
               · split
                 · exact Ext.refl _ _
-                · rw [respondTerminal_fst]; exact ext_modHost_map _ _ (keyPres_setState _ _) (Ext.refl _ _)
+                · rw [respondTerminal_fst]; exact ext_modHost_map _ _ (keyPres_setState _ _) (stOK_setState _ _ (by decide) (by decide)) (Ext.refl _ _)
               · rw [respondTerminal_fst]; exact Ext.refl _ _
         · split
           · exact Ext.refl _ _
           · rename_i n1 _ c' hadd
             rw [respondTerminal_fst]
-            exact ext_addRelay hadd (Or.inl terminal_ne_forwarding) (Ext.refl _ _)
+            exact ext_addRelay hadd (Or.inl terminal_ne_forwarding) (by decide) (Ext.refl _ _)
       · -- forwarding
         rename_i htgt
         split
@@ -63,9 +63,9 @@ theorem ext_request (n : Node) (c hid : Nat) (v1 : Bool) (frm target : Addr) (in
                   split at hstep
                   · simp only [Prod.mk.injEq, Option.some.injEq] at hstep
                     rw [← hstep.1.1]; exact Ext.refl _ _
-                  · exact ext_addRelay hstep (Or.inr ⟨ham', nfrm⟩) (Ext.refl _ _)
+                  · exact ext_addRelay hstep (Or.inr ⟨ham', nfrm⟩) (by decide) (Ext.refl _ _)
                 have e2 : Ext n.amRelay n (n1.modHost peer.id (·.mapRecs (setStateF frm nebula_Requested))) :=
-                  ext_modHost_map _ _ (keyPres_setState _ _) e1
+                  ext_modHost_map _ _ (keyPres_setState _ _) (stOK_setState _ _ (by decide) (by decide)) e1
                 unfold fwdSend
                 split
                 · exact e2
@@ -77,13 +77,13 @@ theorem ext_request (n : Node) (c hid : Nat) (v1 : Bool) (frm target : Addr) (in
                     · split
                       · exact e2
                       · rename_i n3 _ c'' hadd
-                        exact ext_addRelay hadd (Or.inr ⟨ham', ntgt⟩) e2
+                        exact ext_addRelay hadd (Or.inr ⟨ham', ntgt⟩) (by decide) e2
 
 theorem ext_response (n : Node) (c hid : Nat) (v1 : Bool) (relayTo : Addr) (initIdx respIdx : Nat) :
     Ext n.amRelay n (handleCreateRelayResponse n c hid v1 relayTo initIdx respIdx).1 := by
   unfold handleCreateRelayResponse
   have e1 : Ext n.amRelay n (n.modHost hid (·.mapRecs (completeIdxF initIdx respIdx))) :=
-    ext_modHost_map _ _ (keyPres_completeIdx _ _) (Ext.refl _ _)
+    ext_modHost_map _ _ (keyPres_completeIdx _ _) (stOK_completeIdx _ _) (Ext.refl _ _)
   split
   · exact Ext.refl _ _
   · split
@@ -99,7 +99,7 @@ theorem ext_response (n : Node) (c hid : Nat) (v1 : Bool) (relayTo : Addr) (init
             · exact e1
             · split
               · rename_i ph _ _ _ _ _ _
-                have e2 := ext_modHost_map (am := n.amRelay) (n := n) ph.id _ (keyPres_setState relayTo nebula_Established) e1
+                have e2 := ext_modHost_map (am := n.amRelay) (n := n) ph.id _ (keyPres_setState relayTo nebula_Established) (stOK_setState _ _ (by decide) (by decide)) e1
                 split
                 · exact e2
                 · exact e2
@@ -117,5 +117,118 @@ theorem ext_handleControl (n : Node) (c hid : Nat) (m : Ctl) :
       · exact ext_response _ _ _ _ _ _ _
     · exact Ext.refl _ _
   · exact Ext.refl _ _
+
+
+-- ---- initiator side (StartRelays) and relay migration (migrateRelayUsed)
+
+theorem sendRelayRequest_fst (m : Node) (c hid : Nat) (v1 : Bool) (idx : Nat) (vpnIp : Addr) :
+    (sendRelayRequest m c hid v1 idx vpnIp).1 = m := by
+  unfold sendRelayRequest; split <;> rfl
+
+theorem ext_startRelayOne {am : Bool} {n m : Node} (c : Nat) (vpnIp : Addr) (v1 : Bool) (relay : Addr)
+    (e : Ext am n m) : Ext am n (startRelayOne m c vpnIp v1 relay).1 := by
+  unfold startRelayOne
+  split
+  · exact e
+  · split
+    · exact e
+    · split
+      · exact ext_pending _ e
+      · split
+        · exact e
+        · split
+          · split
+            · exact e
+            · rename_i n1 idx c' hadd
+              rw [sendRelayRequest_fst]
+              exact ext_addRelay hadd (Or.inl terminal_ne_forwarding) (by decide) e
+          · split
+            · exact ext_relayUsed _ e
+            · split
+              · rw [sendRelayRequest_fst]
+                exact ext_modHost_map _ _ (keyPres_setState _ _) (stOK_setState _ _ (by decide) (by decide)) e
+              · split
+                · rw [sendRelayRequest_fst]; exact e
+                · exact e
+
+theorem ext_startRelaysLoop {am : Bool} {n : Node} (vpnIp : Addr) (v1 : Bool) :
+    ∀ (rs : List Addr) (m : Node) (c : Nat) (acc : List Out), Ext am n m →
+      Ext am n (startRelaysLoop vpnIp v1 rs m c acc).1 := by
+  intro rs
+  induction rs with
+  | nil => intro m c acc e; exact e
+  | cons r rs ih =>
+    intro m c acc e
+    unfold startRelaysLoop
+    have e1 := ext_startRelayOne (am := am) (n := n) c vpnIp v1 r e
+    generalize startRelayOne m c vpnIp v1 r = res at e1
+    obtain ⟨n1, c1, o⟩ := res
+    exact ih n1 c1 (acc ++ o) e1
+
+theorem ext_startRelays (n : Node) (c : Nat) (vpnIp : Addr) (v1 : Bool) (relays : List Addr) :
+    Ext n.amRelay n (startRelays n c vpnIp v1 relays).1 := by
+  unfold startRelays
+  split
+  · exact Ext.refl _ _
+  · exact ext_startRelaysLoop vpnIp v1 relays n c [] (Ext.refl _ _)
+
+theorem migrateSend_fst (m : Node) (c newId : Nat) (v1 : Bool) (ty idx : Nat) (peer new0 : Addr) :
+    (migrateSend m c newId v1 ty idx peer new0).1 = m := by
+  unfold migrateSend; split <;> split <;> rfl
+
+theorem ext_migrateOne {n m : Node} (c newId : Nat) (v1 : Bool) (r : Relay)
+    (hns : r.type = nebula_ForwardingType → n.myAddrs.contains r.peerAddr = false) (hsv : r.type = nebula_ForwardingType ∨ r.type ≠ nebula_ForwardingType)
+    (e : Ext n.amRelay n m) : Ext n.amRelay n (migrateOne m c newId v1 r).1 := by
+  unfold migrateOne
+  split
+  · exact e
+  · rename_i hgate
+    split
+    · exact e
+    · split
+      · split
+        · rw [migrateSend_fst]; exact e
+        · exact e
+      · split
+        · exact e
+        · split
+          · exact e
+          · rename_i n1 idx c' hadd
+            rw [migrateSend_fst]
+            refine ext_addRelay hadd ?_ (by decide) e
+            rcases hsv with hty | hty
+            · right
+              have ham : m.amRelay = true := by
+                cases hc : m.amRelay
+                · simp [hty, hc] at hgate
+                · rfl
+              exact ⟨by rw [← e.amr]; exact ham, hns hty⟩
+            · exact Or.inl hty
+
+theorem ext_migrateLoop {n : Node} (newId : Nat) (v1 : Bool) :
+    ∀ (rs : List Relay), (∀ r ∈ rs, r.type = nebula_ForwardingType → n.myAddrs.contains r.peerAddr = false) →
+      ∀ (m : Node) (c : Nat) (acc : List Out), Ext n.amRelay n m →
+        Ext n.amRelay n (migrateLoop newId v1 rs m c acc).1 := by
+  intro rs
+  induction rs with
+  | nil => intro _ m c acc e; exact e
+  | cons r rs ih =>
+    intro hns m c acc e
+    unfold migrateLoop
+    have e1 := ext_migrateOne (n := n) c newId v1 r (hns r List.mem_cons_self) (Decidable.em _) e
+    generalize migrateOne m c newId v1 r = res at e1
+    obtain ⟨n1, c1, o⟩ := res
+    exact ih (fun x hx => hns x (List.mem_cons_of_mem _ hx)) n1 c1 (acc ++ o) e1
+
+/-- `migrateRelayUsed` (fixed code) only extends the state, provided no Forwarding record of the old
+hostinfo points at the node itself (invariant `NS`). -/
+theorem ext_migrate (n : Node) (c oldId newId : Nat) (v1 : Bool) (hns : NS n) :
+    Ext n.amRelay n (migrateRelayUsed n c oldId newId v1).1 := by
+  unfold migrateRelayUsed
+  split
+  · exact Ext.refl _ _
+  · rename_i oh hfind
+    have hf := findHost_some hfind
+    exact ext_migrateLoop newId v1 oh.recs (fun r hr hty => hns oh hf.1 r hr hty) n c [] (Ext.refl _ _)
 
 end Nebula.Lemmas.Relay
